@@ -27,7 +27,7 @@ fn show_file(path: &PathBuf) -> String {
     }
 }
 
-pub fn run(out: &mut impl Write) -> i32 {
+pub fn run(_args: &[String], out: &mut dyn Write) -> i32 {
     let dir = std::env::temp_dir().join(format!("okane-verif-c20-{}", std::process::id()));
     let _ = std::fs::remove_dir_all(&dir);
     std::fs::create_dir_all(&dir).unwrap();
